@@ -29,8 +29,11 @@ CFG = {
             "continuations, all 125 width triples (listed below); corpus (defect #32 inputs, spot checks, past failures); all 125 width triples {0..4}^3 x with/without /Index x random rows (plus truncated rows, a type byte "
             "above 2, Flate with none/Predictor 1/PNG-Up at two compression levels); 44 single-field corruptions of the stream "
             "dictionary; n random legal tables (1-4 subsections, random starts up to 2^63-1000, leading zeros, blanks, header EOLs, "
-            "0-5 entries, 3 terminators) each with 2 (quick) or all 18 (thorough) single-field corruptions of one entry, one "
+            "0-5 entries, 3 terminators) each with 2 (quick) or all 26 (thorough) single-field corruptions (incl. sign/blank in the number fields) of one entry, one "
             "random byte alteration, one truncation and one shifted start; header oddities; one large table and stream. "
+            "Oracle: described cases are judged against the encoder's entries; in addition EVERY accepted table (raw, mutated or "
+            "described) is re-read from the bytes by the spec alone (xref keyword, claimed headers, fixed 20-byte form at every "
+            "claimed entry offset, claimed value and numbering) - class accepts-malformed-entry. "
             "non-trivial = described table with >= 2 subsections or a corruption; stream case with >= 4 content bytes or a "
             "non-standard dictionary",
     "trusted_base": COMMON_TB + [
